@@ -7,7 +7,9 @@ process_chunk (via handle_incoming_message), merge_chunks, turn_received_chunks_
 the caller as `BadConnectionClosed`; a closed request channel likewise),
 `lib/src/client/transport/buffer.rs`: `SendBuffer::next_request_id`.
 
-Time is abstracted to one bit per request: "its deadline has passed" (`deadline <= now`).
+Time: a deadline is an integer number of seconds relative to "now" (which does not advance within a
+case); `deadline <= now` is `deadline ≤ 0`.  Requests are submitted with a timeout of a day (86400)
+or of zero; the harness moves the deadline of a pending request explicitly.
 A chunk's body is abstracted to the piece of a response message it carries: message `msg` was cut
 into `total` pieces, this is piece `idx`.  Piece 0 holds the message's type id, response header
 (with the marker `msg`) and the declared length of its payload; all later pieces have one fixed
@@ -43,6 +45,8 @@ deriving Repr, DecidableEq
 inductive Res where
   | response (msg : Nat) (payload : List (Nat × Nat))
   | err (status : Nat)
+  /-- `send_no_response` returned `Ok(())`: the message is in the request channel -/
+  | queuedNoResponse
 deriving Repr, DecidableEq
 
 /-- an entry of `message_states` -/
@@ -50,12 +54,15 @@ structure Pend where
   rid : Nat
   req : Nat
   chunks : List Chunk     -- arrival order
-  expired : Bool          -- `deadline <= now`
+  deadline : Int          -- seconds from now; `deadline <= now` is `deadline ≤ 0`
 deriving Repr, DecidableEq
+
+def Pend.expired (p : Pend) : Bool := decide (p.deadline ≤ 0)
 
 /-- an `OutgoingMessage` waiting in the request channel -/
 structure Queued where
-  req : Nat
+  /-- the waiting caller (`callback: Some(_)`); `none` for `Request::send_no_response` -/
+  req : Option Nat
   late : Bool             -- its deadline is already reached when it is taken from the channel
 deriving Repr, DecidableEq
 
@@ -96,7 +103,12 @@ def sweep (s : State) : State × Done :=
 /-- `Request::send` : hand the request to the channel (fails at once when the channel is closed) -/
 def submit (s : State) (late : Bool) : State × Done :=
   if s.closed then ({ s with nextReq := s.nextReq + 1 }, [(s.nextReq, .err BadConnectionClosed)])
-  else ({ s with queue := s.queue ++ [⟨s.nextReq, late⟩], nextReq := s.nextReq + 1 }, [])
+  else ({ s with queue := s.queue ++ [⟨some s.nextReq, late⟩], nextReq := s.nextReq + 1 }, [])
+
+/-- `Request::send_no_response`: the caller is done as soon as the message is queued -/
+def submitNoResponse (s : State) (late : Bool) : State × Done :=
+  if s.closed then ({ s with nextReq := s.nextReq + 1 }, [(s.nextReq, .err BadConnectionClosed)])
+  else ({ s with queue := s.queue ++ [⟨none, late⟩], nextReq := s.nextReq + 1 }, [(s.nextReq, .queuedNoResponse)])
 
 inductive PumpOut where
   | sent (rid : Nat)   -- `Some((request, request_id))`
@@ -112,8 +124,11 @@ def pump (s : State) : State × Done × PumpOut :=
     match s1.queue with
     | q :: rest =>
       let rid := s1.lastRid + 1
-      ({ s1 with queue := rest, lastRid := rid,
-                 pending := s1.pending ++ [⟨rid, q.req, [], q.late⟩] }, d, .sent rid)
+      -- a message state is registered only when there is a callback
+      let reg : List Pend := match q.req with
+        | some r => [⟨rid, r, [], if q.late then 0 else 86400⟩]
+        | none => []
+      ({ s1 with queue := rest, lastRid := rid, pending := s1.pending ++ reg }, d, .sent rid)
     | [] => (s1, d, if s1.closed then .none else .idle)
   else (s1, d, .full)
 
@@ -195,19 +210,31 @@ def chunk (s : State) (c : Chunk) : State × Done × ChunkOut :=
 def close (s : State) (status : Nat) : State × Done :=
   let st := if status / 0x40000000 = 0 then BadConnectionClosed else status
   ({ s with pending := [], queue := [], closed := true },
-   s.pending.map (fun p => (p.req, Res.err st)) ++ s.queue.map (fun q => (q.req, Res.err st)))
+   s.pending.map (fun p => (p.req, Res.err st)) ++
+     s.queue.filterMap (fun q => q.req.map (fun r => (r, Res.err st))))
 
-/-- the deadline of a pending request passes -/
-def expire (s : State) (rid : Nat) : State × Bool :=
+/-- the deadline of a pending request is moved (time passing, seen from that request) -/
+def setDeadline (s : State) (rid : Nat) (d : Int) : State × Bool :=
   match findRid s.pending rid with
   | none => (s, false)
-  | some p => ({ s with pending := replaceRid s.pending { p with expired := true } }, true)
+  | some p => ({ s with pending := replaceRid s.pending { p with deadline := d } }, true)
+
+/-- the value `next_timeout` returns: the earliest deadline that has not passed -/
+def minDeadline : List Pend → Option Int
+  | [] => none
+  | p :: ps =>
+    match minDeadline ps with
+    | none => some p.deadline
+    | some m => some (if p.deadline < m then p.deadline else m)
+
+def nextTimeout (s : State) : Option Int := minDeadline (s.pending.filter (fun p => !p.expired))
 
 inductive Op where
   | submit (late : Bool)
   | pump
   | sweep
-  | expire (rid : Nat)
+  | setDeadline (rid : Nat) (d : Int)
+  | submitNoResponse (late : Bool)
   | chunk (c : Chunk)
   | close (status : Nat)
   /-- a TCP-level Error / unexpected Acknowledge message: `handle_incoming_message` returns `Err` -/
@@ -219,7 +246,8 @@ def step (s : State) : Op → State × Done
   | .submit late => submit s late
   | .pump => let (s', d, _) := pump s; (s', d)
   | .sweep => sweep s
-  | .expire rid => ((expire s rid).1, [])
+  | .setDeadline rid d => ((setDeadline s rid d).1, [])
+  | .submitNoResponse late => submitNoResponse s late
   | .chunk c => let (s', d, _) := chunk s c; (s', d)
   | .close st => close s st
   | .errmsg => (s, [])
